@@ -2,8 +2,8 @@ import HappyModel.C08.PipeW
 /-!
 C08 part 2b — basic facts about the capacity-unit pipeline model (`HappyModel.C08.PipeW`):
 weights, the list queue's `pick`, frame lemmas of `_poll_if_ready`, the conservation invariant
-`used = Σ weights in service` (every config, variant and schedule), and the invariant of the
-repaired protocol with Lemma A (`pollIfReady_inv`).
+`used = Σ weights in service` (every config and schedule), and the invariant of the admission
+proposal (`admission` on) with Lemma A (`pollIfReady_inv`).
 -/
 namespace HappyModel.C08.PipeW
 
@@ -179,7 +179,7 @@ theorem final_act (c : WCfg) : ∀ (as : List Act) (s : WSt), s.used = sumW c s.
   | [], _, h => h
   | a :: as, s, h => final_act c as _ (step_act c s a h)
 
-/-! ### the invariant of the repaired protocol -/
+/-! ### the invariant of the admission proposal (`admission = true`) -/
 
 /-- everything except the no-strand clause -/
 structure WInv0 (c : WCfg) (w0 : Nat) (s : WSt) : Prop where
